@@ -365,11 +365,16 @@ def cq(fr):
 # ----------------------------------------------------------------------------------------------
 
 def load_known(pid):
+    """Entries of the committed known-findings file for one property.  known_findings.json is assembled by
+    tools/mkfindings.py from the per-property source fragments in known_findings.d/ and is never written at run time;
+    the fragments are only read when the assembled file is missing (development)."""
     out = []
-    paths = [os.path.join(VERIF, "known_findings.json")]
-    d = os.path.join(VERIF, "known_findings.d")
-    if os.path.isdir(d):
-        paths += [os.path.join(d, f) for f in sorted(os.listdir(d)) if f.endswith(".json")]
+    main = os.path.join(VERIF, "known_findings.json")
+    paths = [main]
+    if not os.path.exists(main):
+        d = os.path.join(VERIF, "known_findings.d")
+        if os.path.isdir(d):
+            paths = [os.path.join(d, f) for f in sorted(os.listdir(d)) if f.endswith(".json")]
     for p in paths:
         try:
             data = json.load(open(p))
